@@ -154,6 +154,10 @@ static std::string gen(const std::string &prop, uint64_t base, uint64_t idx, boo
     int ncalls = (int)r.range(10, thorough ? 150 : 60) * ntasks;
     for (int i = 0; i < ncalls; i++) {
         int t = (int)r.below(ntasks);
+        if (bind_nextras && r.chance(0.08)) {  // new pointer-free API (none on the pinned tree)
+            calllines.push_back(strf("call t=%d fn=extra a=%u b=%u c=%u d=%u", t, (unsigned)r.below(bind_nextras), (unsigned)r.below(4), (unsigned)r.below(4), (unsigned)r.below(4)));
+            continue;
+        }
         unsigned k = (unsigned)r.below(100);
         if (k < 62) {  // field accessor on an own PDU
             P &p = pdus[t][r.below(pdus[t].size())];
@@ -236,7 +240,8 @@ static std::string gen(const std::string &prop, uint64_t base, uint64_t idx, boo
             bool big = r.chance(0.1);
             unsigned plen = am == 1 ? 0 : (unsigned)(big ? r.range(25, 400) : r.range(0, 24));
             unsigned pathbytes = am == 1 ? 4 : 2 + plen;
-            unsigned abytes = vss_is_var(dt) ? (unsigned)(big ? r.range(7, 120) : r.range(0, 6)) * vss_elem(dt) : 0;
+            // (big arrays go up to what a 2044-byte message can carry)
+            unsigned abytes = vss_is_var(dt) ? (unsigned)(big ? (r.coin() ? r.range(7, 120) : r.range(120, std::max<unsigned>(121, (1990 - pathbytes) / vss_elem(dt)))) : r.range(0, 6)) * vss_elem(dt) : 0;
             unsigned valbytes = vss_is_var(dt) ? 2 + abytes : vss_scalar_bytes(dt);
             unsigned total = 12 + pathbytes + valbytes, pad = (4 - total % 4) % 4;
             bool dopad = r.chance(0.6);
@@ -314,11 +319,13 @@ struct World {
     uint64_t pr_badargs = 0, pr_inside = 0, pr_rmw = 0, pr_shared = 0, pr_static_load = 0, pr_unknown_load = 0, loads = 0, stores = 0, calls = 0;
     sim::Digest digest;
     bool guard_layout = false;
+    uint64_t call_steps[8] = {0};           // basic blocks executed by the library call in progress, per task
+    unsigned suspended_in_call() { unsigned n = 0; for (size_t i = 0; i < in_call.size(); i++) if (in_call[i] && (!tasks.cur() || (int)i != tasks.cur()->id)) n++; return n; }
     char cur_fn[64] = "";                 // plan-level name of the library call in progress (for crash attribution)
     size_t arena_used = kArenaSize;          // bytes of the arena that hold objects (rounded up to pages)
     struct HeapObj { uintptr_t p; size_t n; int task; };
     std::vector<HeapObj> heap;              // blocks allocated by library code during a call: owned by the calling task until freed
-    uint64_t pr_heap = 0;
+    uint64_t pr_heap = 0, pr_extra = 0;
     uint64_t events = 0;
     uint64_t static_bytes = 0;
     bool verbose = false;
@@ -456,13 +463,22 @@ static inline bool lib_active() {
     sim::Task *t = W->tasks.cur();
     return t && W->in_call[t->id];
 }
+// A library call that executes millions of basic blocks is not computing anything: it waits for something (a lock word, a flag) that
+// only another caller - possibly one that is suspended inside its own call - can change.
+static inline void call_step() {
+    sim::Task *t = W->tasks.cur();
+    if (t && ++W->call_steps[t->id & 7] > 400000) {
+        violation(std::string("hang:") + W->cur_fn, strf("the library call %s issued by task %d executed more than 4e5 basic blocks without returning while %u other task(s) are suspended inside "
+                                                         "library calls: it waits for state shared between callers", W->cur_fn, t ? t->id : -1, W->suspended_in_call()));
+    }
+}
 void __sanitizer_cov_trace_pc_guard(uint32_t *guard) {
     sim::cov_hit(*guard);
-    if (lib_active()) preempt_point(false, 0);
+    if (lib_active()) { call_step(); preempt_point(false, 0); }
 }
 // basic-block callback of the gcc-built library (gcc has no load/store callbacks): preemption points only
 void __sanitizer_cov_trace_pc(void) {
-    if (lib_active()) preempt_point(false, 0);
+    if (lib_active()) { call_step(); preempt_point(false, 0); }
 }
 #define LOADCB(N) void __sanitizer_cov_load##N(void *a) { if (lib_active()) { check_access((uintptr_t)a, N, false, (uintptr_t)__builtin_return_address(0)); preempt_point(false, (uintptr_t)a); } }
 #define STORECB(N) void __sanitizer_cov_store##N(void *a) { if (lib_active()) { check_access((uintptr_t)a, N, true, (uintptr_t)__builtin_return_address(0)); preempt_point(true, (uintptr_t)a); } }
@@ -608,12 +624,22 @@ static Obj *obj(int id) {
 static uint64_t do_call(const Call &c, bool &skipped) {
     World &w = *W;
     skipped = false;
+    if (c.fn == "extra") {  // a pointer-free public function that is not part of the baseline API: callable with any small arguments
+        if (c.a >= bind_nextras) { skipped = true; return 0; }
+        int xt = w.tasks.cur() ? w.tasks.cur()->id : -1;
+        if (xt >= 0) { w.in_shared_call[xt] = false; w.in_call[xt] = 1; w.call_steps[xt & 7] = 0; snprintf(w.cur_fn, sizeof w.cur_fn, "%s", bind_extras[c.a].name); }
+        w.calls++;
+        w.pr_extra++;
+        uint64_t xr = bind_extras[c.a].fn(c.b, c.c, c.d, 0);
+        if (xt >= 0) w.in_call[xt] = 0;
+        return xr;
+    }
     Obj *o = obj(c.obj);
     if (!o) { skipped = true; return 0; }
     uint64_t res = 0;
     int tid = w.tasks.cur() ? w.tasks.cur()->id : -1;  // -1: set-up phase (main context, not monitored)
     if (tid >= 0) w.in_shared_call[tid] = o->shared;
-    auto enter = [&] { if (tid >= 0) { w.in_call[tid] = 1; snprintf(w.cur_fn, sizeof w.cur_fn, "%s%s%s", c.fn.c_str(), c.fmt.empty() ? "" : ".", c.fmt.c_str()); } w.calls++; };
+    auto enter = [&] { if (tid >= 0) { w.in_call[tid] = 1; w.call_steps[tid & 7] = 0; snprintf(w.cur_fn, sizeof w.cur_fn, "%s%s%s", c.fn.c_str(), c.fmt.empty() ? "" : ".", c.fmt.c_str()); } w.calls++; };
     auto leave = [&] { if (tid >= 0) w.in_call[tid] = 0; };
     // callers never hand a shared (read-only) object to a function that writes its argument
     if (tid >= 0 && o->shared && c.fn != "get" && c.fn != "vss_decode" && c.fn != "vss_pathlen" && c.fn != "can_paylen" && c.fn != "can_payoff") { skipped = true; return 0; }
@@ -1007,6 +1033,7 @@ static void exec(const std::string &text, bool verbose) {
     g_res.counters["probe.load_from_unknown_region"] = w.pr_unknown_load;
     g_res.counters["probe.calls_with_invalid_arguments"] = w.pr_badargs;
     g_res.counters["library_heap_blocks"] = w.pr_heap;
+    if (bind_nextras) g_res.counters["calls_of_new_pointer_free_api"] = w.pr_extra;
     g_res.counters["scen." + saved_policy] = 1;
     g_res.counters[w.guard_layout ? "layout.guard_pages" : "layout.packed"] = 1;
     sim::finish_run(g_res);
@@ -1114,6 +1141,8 @@ int main(int argc, char **argv) {
         for (unsigned i = 0; i < bind_nformats; i++)
             for (unsigned k = 0; k < bind_formats[i]->nfuncs; k++)
                 if (bind_formats[i]->funcs[k].kind == 7) un += std::string(un.empty() ? "" : ", ") + bind_formats[i]->funcs[k].name;
+        for (unsigned i = 0; bind_new_uncallable[i]; i++)
+            if (un.find(bind_new_uncallable[i]) == std::string::npos) un += std::string(un.empty() ? "" : ", ") + bind_new_uncallable[i];
         if (!un.empty()) {
             fprintf(stderr, "warning: public functions not exercised by any generated call or driver: %s\n", un.c_str());
             e.assumptions.push_back("NOT EXERCISED (no generated call, no driver): " + un);
